@@ -99,7 +99,8 @@ def same_contraction(draw, shells, lo, hi, p=0.3):
     if k == 3:
         ex.append(draw(gen.log_uniform(lo, hi)))
     ex.append(hi if draw(st.booleans()) else draw(gen.log_uniform(hi / 2, hi)))
-    co = [[draw(gen.coefficient())] for _ in range(k)]
+    m = draw(st.integers(1, 2))
+    co = [[draw(gen.coefficient()) for _ in range(m)] for _ in range(k)]
     out = []
     for s_ in shells:
         c2, rep = gen.repair_cancellation(s_["l"], ex, co)
